@@ -173,7 +173,13 @@ def run_oaw(case):
     from emg3d import meshes
     vec = None if case['vector'] is None else np.array(case['vector'], dtype=float)
     dom = None if case['domain'] is None else list(case['domain'])
-    calls = []
+    calls, cost = [], [0]
+    orig_stretch = meshes._stretch
+
+    def counting(edges, widths, stretching, nx, *a, **k):
+        cost[0] += 1 if float(stretching) == 1.0 else int(nx) ** 2
+        return orig_stretch(edges, widths, stretching, nx, *a, **k)
+    meshes._stretch = counting
     with warnings.catch_warnings(record=True) as ws, record_brentq(calls):
         warnings.simplefilter('always')
         try:
@@ -192,8 +198,11 @@ def run_oaw(case):
             res = {'kind': 3, 'msg': str(e)}
         except Exception as e:
             res = {'kind': 97, 'msg': repr(e)}
+        finally:
+            meshes._stretch = orig_stretch
     res['warns'] = warn_codes(ws)
     res['brentq'] = calls
+    res['cost'] = cost[0]          # proxy for the model's evaluation time on Q
     return res
 
 
@@ -368,3 +377,277 @@ def oaw_features(case, impl):
                         (1 if np.array(case['limits'], ndmin=1).size == 1 else 2)))
     f.append('coe%s' % case['center_on_edge'])
     return f
+
+
+# --------------------------------------------------- construct_mesh: Val forms
+def val_py(v):
+    t = v[0]
+    if t == 'none':
+        return None
+    if t in ('bool', 'num'):
+        return v[1]
+    if t == 'arr':
+        return np.array(v[1], dtype=float)
+    if t == 'seq':
+        return [val_py(x) for x in v[1]] if v[2] == 'list' else tuple(val_py(x) for x in v[1])
+    if t == 'dict':
+        return {'x': val_py(v[1]), 'y': val_py(v[2]), 'z': val_py(v[3])}
+    raise ValueError(t)
+
+
+def val_coq(v):
+    t = v[0]
+    if t == 'none':
+        return 'VNone'
+    if t == 'bool':
+        return f"(VBool {V.coq_bool(v[1])})"
+    if t == 'num':
+        return f"(VNum {q(v[1])})"
+    if t == 'arr':
+        return f"(VArr {qlist(v[1])})"
+    if t == 'seq':
+        return "(VSeq [" + '; '.join(val_coq(x) for x in v[1]) + "])"
+    if t == 'dict':
+        return f"(VDict {val_coq(v[1])} {val_coq(v[2])} {val_coq(v[3])})"
+    raise ValueError(t)
+
+
+NONE = ('none',)
+
+
+def seq(items, kind='list'):
+    return ('seq', list(items), kind)
+
+
+def pair_val(rng, p):
+    """[a, b] as list / tuple / ndarray."""
+    k = rng.random()
+    if k < 0.4:
+        return seq([('num', p[0]), ('num', p[1])], 'list')
+    if k < 0.7:
+        return seq([('num', p[0]), ('num', p[1])], 'tuple')
+    return ('arr', [p[0], p[1]])
+
+
+def spread(rng, per_dir, allow_all=True):
+    """Wrap three per-direction values (Val or NONE) as tuple-of-3 / dict; when
+    all three are equal optionally as one value for all directions."""
+    if allow_all and per_dir[0] == per_dir[1] == per_dir[2] and rng.random() < 0.5:
+        return per_dir[0]
+    if rng.random() < 0.5:
+        return ('dict', per_dir[0], per_dir[1], per_dir[2])
+    return seq(per_dir, rng.choice(['list', 'tuple']))
+
+
+def gen_cm(rng):
+    """One construct_mesh call: cheap per-direction parameters in random formats."""
+    from emg3d import meshes
+    freq = rng.choice([0.5, 1.0, 2.0, 4.0]) * (-1 if rng.random() < 0.25 else 1)
+    mapping = rng.choice(MAPS)
+    nprops = rng.choice([0, 1, 2, 3, 3, 4, 4, 7, 7, 5])
+    props = [prop_value(rng, mapping) for _ in range(max(nprops, 1))]
+    sd0 = skin_depths(dict(frequency=freq, properties=props, mapping=mapping))[0]
+    u = max(1.0, float(round(sd0 / 3)))
+    center = [float(rng.randint(-20, 20) * 16) for _ in range(3)]
+    # minimum widths: mostly fixed by a scalar limit (keeps the rationals small)
+    lk = rng.random()
+    if lk < 0.5:
+        lims = [('num', rng.choice([u, u / 2, 2 * u]))] * 3
+        if rng.random() < 0.5:
+            lims = [('num', rng.choice([u, u / 2, 2 * u])) for _ in range(3)]
+    elif lk < 0.7:
+        lo = rng.choice([u / 2, u - 1, u + 2])
+        lims = [seq([('num', lo), ('num', lo + u)])] * 3
+    else:
+        lims = [NONE] * 3
+    if rng.random() < 0.2:
+        lims[rng.randint(0, 2)] = NONE
+    doms, dists, vecs = [], [], []
+    for d in range(3):
+        a, b = rng.randint(0, 4) + rng.randint(0, 3) / 4, rng.randint(0, 4) + rng.randint(0, 3) / 4
+        k = rng.random()
+        dom = dist = vec = NONE
+        if k < 0.5:
+            dom = (center[d] - a * u, center[d] + b * u)
+        elif k < 0.8:
+            dist = (a * u, b * u)
+        if k >= 0.8 or rng.random() < 0.25:
+            n = rng.randint(2, 7)
+            start = center[d] - rng.randint(0, n) * u
+            vv = [start]
+            for _ in range(n):
+                vv.append(vv[-1] + rng.choice([u / 2, u, u, 2 * u]))
+            vec = ('arr', vv)
+        doms.append(dom)
+        dists.append(dist)
+        vecs.append(vec)
+    same_dom = rng.random() < 0.15
+    if same_dom:
+        doms = [doms[0] if doms[0] != NONE else (center[0] - u, center[0] + 2 * u)] * 3
+    domv = [NONE if p == NONE else pair_val(rng, p) for p in doms]
+    if same_dom:
+        domv = [domv[0]] * 3
+    distv = [NONE if p == NONE else pair_val(rng, p) for p in dists]
+    domain = NONE if all(x == NONE for x in domv) and rng.random() < 0.7 else spread(rng, domv)
+    distance = NONE if all(x == NONE for x in distv) else spread(rng, distv)
+    vector = NONE if all(x == NONE for x in vecs) else spread(rng, vecs, allow_all=False)
+    if rng.random() < 0.05:
+        vector = vecs[0] if vecs[0] != NONE else ('arr', [center[0] - u, center[0], center[0] + u])
+    # stretching
+    sts = []
+    for d in range(3):
+        s0 = rng.choice([1.0, 1.0, 1.0, 1 + rng.randint(2, 6) / 1024])
+        s1 = rng.choice([s0 + rng.randint(2, 9) / 1024, 1.5, 1.25])
+        sts.append((s0, s1))
+    if rng.random() < 0.5:
+        sts = [sts[0]] * 3
+    stv = [pair_val(rng, p) for p in sts]
+    if sts[0] == sts[1] == sts[2]:
+        stv = [stv[0]] * 3
+    stretching = NONE if rng.random() < 0.1 else spread(rng, stv)
+    if lims[0] == lims[1] == lims[2] and rng.random() < 0.6:
+        limits = lims[0]
+    else:
+        limits = spread(rng, lims, allow_all=False)
+    ppsv = [('num', rng.choice([2.0, 3.0, 4.0])) for _ in range(3)]
+    if rng.random() < 0.6:
+        ppsv = [ppsv[0]] * 3
+    pps = NONE if rng.random() < 0.4 else spread(rng, ppsv)
+    coev = [('bool', rng.random() < 0.5) for _ in range(3)]
+    ck = rng.random()
+    if ck < 0.25:
+        coe = NONE
+    elif ck < 0.55:
+        coe = coev[0]
+    else:
+        if rng.random() < 0.3:
+            coev[rng.randint(0, 2)] = NONE
+        coe = spread(rng, coev, allow_all=False)
+    sea = None
+    if rng.random() < 0.3:
+        sea = center[2] + rng.choice([-2, 3, 8, 9, 16, 20, 33]) * u / 8
+    pool = [4, 6, 8, 10, 12, 16, 20, 24, 32]
+    cells = rng.sample(pool, rng.randint(2, 5))
+    return dict(frequency=freq, mapping=mapping, properties=props, scalar_props=(nprops == 0),
+                center=center, domain=domain, vector=vector, distance=distance,
+                stretching=stretching, limits=limits, pps=pps, coe=coe, seasurface=sea,
+                lambda_factor=rng.choice([0.03125, 0.0625, 0.125, 0.25]),
+                max_buffer=float(rng.choice([100000, 6 * u, 2 * u, 12 * u])),
+                lambda_from_center=rng.random() < 0.3, cell_numbers=cells)
+
+
+def run_cm(case):
+    import emg3d
+    from emg3d import meshes
+    kw = dict(lambda_factor=case['lambda_factor'], max_buffer=case['max_buffer'],
+              lambda_from_center=case['lambda_from_center'], mapping=case['mapping'],
+              cell_numbers=list(case['cell_numbers']))
+    for name, key in (('distance', 'distance'), ('stretching', 'stretching'),
+                      ('min_width_limits', 'limits'), ('min_width_pps', 'pps'),
+                      ('center_on_edge', 'coe')):
+        if case[key] != NONE:
+            kw[name] = val_py(case[key])
+    props = case['properties'][0] if case['scalar_props'] else list(case['properties'])
+    calls, cost = [], [0]
+    orig_stretch = meshes._stretch
+
+    def counting(edges, widths, stretching, nx, *a, **k):
+        cost[0] += 1 if float(stretching) == 1.0 else int(nx) ** 2
+        return orig_stretch(edges, widths, stretching, nx, *a, **k)
+    meshes._stretch = counting
+    with warnings.catch_warnings(record=True) as ws, record_brentq(calls):
+        warnings.simplefilter('always')
+        try:
+            m = emg3d.construct_mesh(case['frequency'], props, tuple(case['center']),
+                                     val_py(case['domain']), val_py(case['vector']),
+                                     case['seasurface'], **kw)
+            res = {'kind': 0, 'origin': [float(x) for x in m.origin],
+                   'h': [[float(x) for x in h] for h in m.h]}
+        except ValueError as e:
+            res = {'kind': 10, 'msg': str(e)}
+        except RuntimeError as e:
+            res = {'kind': 3, 'msg': str(e)}
+        except Exception as e:
+            res = {'kind': 97, 'msg': repr(e)}
+        finally:
+            meshes._stretch = orig_stretch
+    res['warns'] = warn_codes(ws)
+    res['brentq'] = calls
+    res['cost'] = cost[0]
+    return res
+
+
+def cm_eval_term(case, impl):
+    from emg3d import meshes
+    sds = skin_depths(case)
+    tab = '[' + '; '.join(f"({q(p)}, {q(s)})" for p, s in zip(case['properties'], sds)) + ']'
+    # argsort permutation: only the z direction can have a sea surface; its limits
+    # and pps are what route_kw hands to z
+    limz, ppsz = dir_value(case['limits'], 2, kw=True), dir_value(case['pps'], 2, kw=True)
+    lim = None if limz is None else (limz if isinstance(limz, float) else list(limz))
+    perm = argsort_perm(sds[0], 3.0 if ppsz is None else ppsz, lim)
+    permt = '[' + '; '.join(f"{i}%nat" for i in perm) + ']'
+    sea = 'None' if case['seasurface'] is None else f"(Some {q(case['seasurface'])})"
+    c = case['center']
+    cmin = (f"(mkCmIn {qlist(case['properties'])} ({q(c[0])}, {q(c[1])}, {q(c[2])}) "
+            f"{val_coq(case['domain'])} {val_coq(case['vector'])} {val_coq(case['distance'])} "
+            f"{val_coq(case['stretching'])} {val_coq(case['limits'])} {val_coq(case['pps'])} "
+            f"{val_coq(case['coe'])} {sea} {q(case['lambda_factor'])} {q(case['max_buffer'])} "
+            f"{V.coq_bool(case['lambda_from_center'])} {zlist(case['cell_numbers'])})")
+    return (f"Eval vm_compute in out_cm (construct_mesh qleb qfloor "
+            f"(brentq_tab {brentq_term(impl['brentq'])}) (fun _ => {permt}) {q(TWOPI)} "
+            f"(skin_tab {tab}) {cmin}).")
+
+
+def dir_value(v, d, kw):
+    """Python-side reading of what direction d receives (numbers only; used for
+    the argsort oracle).  Returns None / float / [a, b]."""
+    t = v[0]
+    if t == 'none':
+        return None
+    if t == 'num':
+        return float(v[1])
+    if t == 'dict':
+        return dir_value(v[1 + d], 0, kw) if v[1 + d][0] not in ('dict',) else None
+    if t == 'arr':
+        if len(v[1]) == 3:
+            return float(v[1][d])
+        return [float(x) for x in v[1]] if len(v[1]) > 1 else float(v[1][0])
+    if t == 'seq':
+        if len(v[1]) == 3:
+            return dir_value(v[1][d], 0, kw)
+        xs = [x[1] for x in v[1]]
+        return [float(x) for x in xs] if len(xs) > 1 else float(xs[0])
+    return None
+
+
+def compare_cm(case, impl, ans, dis):
+    warns, code, org, hx, hy, hz = ans
+    mk = 10 if code in (10, 11, 12) else code
+    if any(c[0] == 'unreadable' for c in impl['brentq']):
+        dis.append({'what': 'construct_mesh: brentq closure no longer readable', 'case': case})
+        return False
+    if mk != impl['kind'] or list(warns) != impl['warns']:
+        dis.append({'what': 'construct_mesh: result kind / warnings differ', 'case': case,
+                    'impl': {'kind': impl['kind'], 'warns': impl['warns'], 'msg': impl.get('msg')},
+                    'model': {'kind': code, 'warns': list(warns)}})
+        return False
+    if code != 0:
+        return True
+    for d, (mo, mh) in enumerate(zip(org, (hx, hy, hz))):
+        ih = impl['h'][d]
+        if len(ih) != len(mh):
+            dis.append({'what': f'construct_mesh: number of cells differs in direction {d}',
+                        'case': case, 'impl': len(ih), 'model': len(mh)})
+            return False
+        scale = max(abs(impl['origin'][d]), sum(ih))
+        if not close(impl['origin'][d], fr(mo), scale):
+            dis.append({'what': f'construct_mesh: origin differs in direction {d}', 'case': case,
+                        'impl': impl['origin'][d], 'model': fr(mo)})
+            return False
+        for k, (a, b) in enumerate(zip(ih, mh)):
+            if not close(a, fr(b), 0.0):
+                dis.append({'what': f'construct_mesh: width {k} differs in direction {d}',
+                            'case': case, 'impl': a, 'model': fr(b)})
+                return False
+    return True
